@@ -1,0 +1,12 @@
+//go:build verif
+
+package cmd
+
+import "context"
+
+// VerifC16WithBackend returns ctx carrying the given Backend, so that the verification harness can
+// run `extract` built by MakeRoot in-process with a recording getter, quote provider and UEFI
+// variable reader (the package's own tests do the same through the unexported context key).
+func VerifC16WithBackend(ctx context.Context, b *Backend) context.Context {
+	return context.WithValue(ctx, backendKey, b)
+}
